@@ -60,6 +60,10 @@ func next(label string, w int) uint64 {
 	mu.Lock()
 	defer mu.Unlock()
 	load()
+	// values the engine drew for its own nondeterminism models (math/rand...) cannot be forced natively
+	for pos < len(inputs) && len(inputs[pos].Label) > 5 && inputs[pos].Label[:5] == "rand." {
+		pos++
+	}
 	if pos >= len(inputs) {
 		fmt.Fprintf(os.Stderr, "VERIF-REPLAY-EXHAUSTED at %s\n", label)
 		return 0
